@@ -17,7 +17,15 @@ fn decode_case(em: &mut Emitter, mode: u8, c: &[u8]) {
             let lazy_take = Constructed::decode(crate::sources::FlexSource::new(&t, crate::sources::Policy::Exact, None), mode_of(mode), |cons| Oid::take_from(cons)).ok().map(|o| o.0.to_vec());
             let lazy_skip = Constructed::decode(crate::sources::FlexSource::new(&t, crate::sources::Policy::Exact, None), mode_of(mode), |cons| Oid::skip_in(cons)).is_ok();
             let take = take.map(|o| o.0.to_vec());
-            let same = take_opt == take.clone().map(Some) && skip_opt == (if skip { Some(Some(())) } else { None }) && lazy_take == take && lazy_skip == skip;
+            let mut same = take_opt == take.clone().map(Some) && skip_opt == (if skip { Some(Some(())) } else { None }) && lazy_take == take && lazy_skip == skip;
+            // where no OBJECT IDENTIFIER is next: the mandatory readers fail, the optional ones report absence
+            for foreign in [tlv(0x04, c), tlv(0x86, c), vec![]] {
+                let f = foreign.as_slice();
+                if Constructed::decode(f.into_source(), mode_of(mode), |cons| Oid::take_from(cons)).is_ok()
+                   || Constructed::decode(f.into_source(), mode_of(mode), |cons| Oid::skip_in(cons)).is_ok()
+                   || Constructed::decode(f.into_source(), mode_of(mode), |cons| Oid::take_opt_from(cons)).ok().map(|o| o.is_none()) != Some(true)
+                   || Constructed::decode(f.into_source(), mode_of(mode), |cons| Oid::skip_opt_in(cons)).ok() != Some(None) { same = false; }
+            }
             (if same { take } else { Some(vec![0xEE; 3]) }, if same { skip } else { false })
         });
         match r {
